@@ -24,6 +24,8 @@ pub fn configs(thorough: bool) -> Vec<(CfCfg, bool)> {
     for alt in [vec![0u64, 1, 1, 0], vec![1, 1, 0, 1]] {
         v.push((CfCfg::new(2, 2, 64, vec![1, 2, 1 << 63, u64::MAX], alt, Some(2), 0, false), false));
     }
+    // 64-bit fingerprints, fingerprint 1 reached through the raw hash u64::MAX (the wrap-around corner of 1 + h % (2^64-1))
+    v.push((CfCfg::new(2, 2, 64, vec![1, 2, 1 << 63, u64::MAX], vec![1, 0, 1, 0], Some(2), 0, true), false));
     if thorough {
         for alt in cuckoo::all_alt_maps(3, 2) {
             v.push((CfCfg::new(3, 2, 2, fps3.clone(), alt.clone(), Some(2), 0, false), false));
